@@ -25,6 +25,7 @@ import (
 	"sort"
 	"strconv"
 	"strings"
+	"sync"
 )
 
 // Kind masks ---------------------------------------------------------------
@@ -568,9 +569,14 @@ type rTupleKey struct {
 	i    int
 }
 
-var rTupleExprs = map[rTupleKey]ast.Expr{}
+var (
+	rTupleExprs = map[rTupleKey]ast.Expr{}
+	rTupleMu    sync.Mutex // properties run concurrently in the sensitivity sweep
+)
 
 func (k rTupleKey) expr() ast.Expr {
+	rTupleMu.Lock()
+	defer rTupleMu.Unlock()
 	if e, ok := rTupleExprs[k]; ok {
 		return e
 	}
